@@ -175,7 +175,8 @@ def run_history(ctx, R, zoo, tpl, knobs, eoc, opsrc, maxops, fk=True):
                 continue
             ops.append(op)
             ctx.seen("op_kinds", op[0])
-            if op[0] in ("flush", "expall", "expire", "refresh", "pk", "nest"):   # ops that flush explicitly
+            if op[0] in ("flush", "expall", "expire", "refresh", "pk", "nest") or (
+                    op[0] == "add" and not (rig.session.new or rig.session.deleted)):   # ops that flush explicitly
                 judge(ctx, rig, R, "flush", ops, kd)
                 ctx.count("flushes_judged")
             elif op[0] in ("rollback", "spr", "spc", "close"):
@@ -280,6 +281,45 @@ DROP_BASE = [
 ]
 
 
+def directed_rowswitch_selfref(ctx, R, zoo, tpl):
+    """Row switch (delete + add of the same primary key in one flush) on a mapper that is
+    flushed per-state (self-referential Node): the replacing object UPDATEs the row; the
+    row must still be there afterwards."""
+    import sqlalchemy as sa
+
+    rig = R.Rig(zoo, tpl, ctx.tmppath(".db"))
+    ops = ["n=Node(id=1,label='old'); commit", "delete(n); add(Node(id=1,label='new'))", "flush"]
+    try:
+        s = rig.session
+        Node = zoo.cls["Node"]
+        old = Node(id=1, label="old")
+        s.add(old)
+        s.commit()
+        new = Node(id=1, label="new")
+        rig.track(old)
+        rig.track(new)
+        s.delete(old)
+        s.add(new)
+        try:
+            s.flush()
+        except sa.exc.SQLAlchemyError as e:
+            ctx.seen("directed_rowswitch_raised", type(e).__name__)
+            return
+        cnt = {}
+        snap = R.snapshot(rig)
+        for f in R.relation(rig, snap, rig.read_txn, cnt):
+            mech = f.mechanism
+            if mech in ("persistent-object-without-row", "row-without-owner", "deleted-object-row-exists"):
+                mech = "row-switch-on-per-state-mapper-deletes-row"
+            ctx.violation(mech, "directed: " + f.summary, {"ops": ops, "detail": f.detail, "graph": R.snap_public(snap)})
+        for k, v in cnt.items():
+            ctx.count(k, v)
+        ctx.count("directed_histories")
+        ctx.case({"directed": "rowswitch-selfref"}, nontrivial=True)
+    finally:
+        rig.close()
+
+
 def directed_stale_cascade(ctx, R, zoo, tpl):
     """Session.delete(parent) cascades along a loaded collection that still lists a child
     whose DELETE an earlier flush already emitted (documented staleness).  The child is put
@@ -354,10 +394,14 @@ def run(ctx):
                     tail = [alpha[i] for i in seq]
                     # each sequence under both zoo variants of this shard (one with, one
                     # without tree delete cascade) and with / without FK enforcement
-                    for k in (ctx.shard % len(KNOBS), (ctx.shard + 2) % len(KNOBS)):
+                    k0, k1 = ctx.shard % len(KNOBS), (ctx.shard + 2) % len(KNOBS)
+                    if name in ("Z2", "Z3"):   # the zoo knobs (tree cascade, list/set) matter here
+                        combos = [(k0, False), (k1, False), (k0 if idx % 2 else k1, True)]
+                    else:
+                        combos = [(k0 if idx % 2 else k1, bool((idx // 2) % 2))]
+                    for k, fk in combos:
                         zoo, tpl = zoos.get(k)
-                        for fk in (True, False):
-                            run_history(ctx, R, zoo, tpl, KNOBS[k], bool(idx % 2), lambda rig, b=base, t=tail: iter(b + t), 99, fk=fk)
+                        run_history(ctx, R, zoo, tpl, KNOBS[k], bool(idx % 2), lambda rig, b=base, t=tail: iter(b + t), 99, fk=fk)
                     ctx.count("exhaustive_small_histories")
         # quick: length-3 sequences are sampled instead of enumerated
         if ctx.quick:
@@ -380,6 +424,7 @@ def run(ctx):
                 run_history(ctx, R, zoo, tpl, KNOBS[0], True, lambda rig, t=tail: iter(DROP_BASE + t + [["flush"]]), 99)
                 ctx.count("directed_histories")
             directed_stale_cascade(ctx, R, zoo, tpl)
+            directed_rowswitch_selfref(ctx, R, zoo, tpl)
 
         # ---- part B: random histories
         nhist = ctx.pick({"quick": 170, "thorough": 2600})
@@ -393,7 +438,8 @@ def run(ctx):
             n = rng.randint(5, maxops)
 
             def src(rig, fams=fams, n=n):
-                gen = R.Gen(rig, rng, fams, WEIGHTS)
+                # without FK enforcement an expunged object's row legitimately dangles (S5): no expunge there
+                gen = R.Gen(rig, rng, fams, WEIGHTS if rig.fk else {**WEIGHTS, "exp": 0})
                 for _ in range(n * 2):
                     op = gen.step()
                     if op is not None:
